@@ -135,6 +135,70 @@ func runC10(p *core.Prog, r *core.Report, tier string) {
 			if !ok || !strings.HasSuffix(id.Owner, "beaconblockproposer.RelayConfig") {
 				return
 			}
+			// the value chosen by a first-present helper: firstOf(fallback, a.F, b.F, c.F)
+			if call, isCall := st.Val.(*ssa.Call); isCall {
+				if callee := call.Call.StaticCallee(); callee != nil {
+					if fbIdx, varIdx, isFirst := firstPresentHelper(ds, callee); isFirst && varIdx < len(call.Call.Args) {
+						_ = fbIdx
+						elems := variadicElems(call.Call.Args[varIdx])
+						type te struct {
+							tier        int
+							name, field string
+							base        string
+						}
+						var ts []te
+						for _, e := range elems {
+							ld, ok := e.(*ssa.UnOp)
+							if !ok || ld.Op.String() != "*" {
+								ts = append(ts, te{tier: -1})
+								continue
+							}
+							fa, ok := ld.X.(*ssa.FieldAddr)
+							if !ok {
+								ts = append(ts, te{tier: -1})
+								continue
+							}
+							t, tn := tierOf(fa.X.Type())
+							ts = append(ts, te{t, tn, ds.D(ld).Name, ds.D(fa.X).String()})
+						}
+						for k, e := range ts {
+							if e.tier < 0 {
+								continue
+							}
+							for _, prm := range f.Params {
+								t, tn := tierOf(prm.Type())
+								if t <= e.tier {
+									continue
+								}
+								st2, ok := derefStruct(prm.Type())
+								if !ok {
+									continue
+								}
+								has := false
+								for i := 0; i < st2.NumFields(); i++ {
+									if st2.Field(i).Name() == e.field {
+										has = true
+									}
+								}
+								if !has {
+									continue
+								}
+								nTier++
+								earlier := false
+								for j := 0; j < k; j++ {
+									if ts[j].tier == t && ts[j].field == e.field && ts[j].base == prm.Name() {
+										earlier = true
+									}
+								}
+								r.Check(earlier, "C10.b", fmt.Sprintf("%s|%s<-%s.%s|yields-to-%s", core.FnKey(f), id.Name, e.name, e.field, tn), p.Pos(st.Pos()),
+									"the "+e.name+" value is offered after the "+tn+" value to "+callee.Name()+" (first present wins)", "the "+e.name+" "+e.field+" can be used although the more specific "+tn+" tier sets it (precedence inverted)")
+							}
+							r.Check(id.Name == e.field, "C10.b", fmt.Sprintf("%s|%s<-%s.%s|same-field", core.FnKey(f), id.Name, e.name, e.field), p.Pos(st.Pos()), "the field read is the field written", "relay field "+id.Name+" is filled from "+e.field)
+						}
+						return
+					}
+				}
+			}
 			// the value: *tier.F
 			u, ok := st.Val.(*ssa.UnOp)
 			if !ok || u.Op.String() != "*" {
@@ -769,6 +833,190 @@ func runC10(p *core.Prog, r *core.Report, tier string) {
 		}
 	}
 	r.Floor("C10.i marshaler pairs", nPairs, 5)
+}
+
+// firstPresentHelper recognises a function f(fallback T, xs ...*T) T (parameters in either order) that
+// returns the value behind the first non-nil element of xs in index order, and the fallback when all are
+// nil. The template is strict: the only branches are the loop condition and a nil test of the loop
+// element; the non-nil edge runs straight to a return of *element, the nil edge straight back to the loop.
+func firstPresentHelper(ds *core.Describer, fn *ssa.Function) (fbIdx, varIdx int, ok bool) {
+	sig := fn.Signature
+	if !sig.Variadic() || sig.Results().Len() != 1 || sig.Recv() != nil || len(fn.Blocks) == 0 || len(fn.Params) != 2 {
+		return 0, 0, false
+	}
+	varIdx = len(fn.Params) - 1
+	fbIdx = 0
+	vp, fb := fn.Params[varIdx], fn.Params[fbIdx]
+	sl, isSlice := vp.Type().Underlying().(*types.Slice)
+	if !isSlice {
+		return 0, 0, false
+	}
+	if _, isPtr := sl.Elem().Underlying().(*types.Pointer); !isPtr {
+		return 0, 0, false
+	}
+	var loopIf *ssa.If
+	for _, b := range fn.Blocks {
+		if len(b.Instrs) == 0 {
+			continue
+		}
+		iff, isIf := b.Instrs[len(b.Instrs)-1].(*ssa.If)
+		if !isIf {
+			continue
+		}
+		cmp, isBin := iff.Cond.(*ssa.BinOp)
+		if !isBin {
+			return 0, 0, false
+		}
+		if c, ok := core.RangeIndex(cmp.X); ok && c == ssa.Value(vp) && cmp.Op.String() == "<" {
+			if loopIf != nil {
+				return 0, 0, false
+			}
+			loopIf = iff
+			continue
+		}
+		if _, ok := explicitIdx(cmp.X, vp); ok && cmp.Op.String() == "<" {
+			if loopIf != nil {
+				return 0, 0, false
+			}
+			loopIf = iff
+			continue
+		}
+	}
+	if loopIf == nil {
+		return 0, 0, false
+	}
+	straight := func(b *ssa.BasicBlock) *ssa.BasicBlock {
+		for n := 0; n < 8 && len(b.Succs) == 1; n++ {
+			if b == loopIf.Block() {
+				return b
+			}
+			b = b.Succs[0]
+		}
+		return b
+	}
+	nTests := 0
+	for _, b := range fn.Blocks {
+		if len(b.Instrs) == 0 {
+			continue
+		}
+		iff, isIf := b.Instrs[len(b.Instrs)-1].(*ssa.If)
+		if !isIf || iff == loopIf {
+			continue
+		}
+		cmp := iff.Cond.(*ssa.BinOp)
+		var e ssa.Value
+		switch {
+		case core.IsNilConst(cmp.Y):
+			e = cmp.X
+		case core.IsNilConst(cmp.X):
+			e = cmp.Y
+		default:
+			return 0, 0, false
+		}
+		if c, ok := core.LoopElem(e); !ok || c != ssa.Value(vp) {
+			return 0, 0, false
+		}
+		nonNil, isNil := 0, 1
+		switch cmp.Op.String() {
+		case "!=":
+		case "==":
+			nonNil, isNil = 1, 0
+		default:
+			return 0, 0, false
+		}
+		// the non-nil edge: straight to a return of *e
+		end := straight(b.Succs[nonNil])
+		ret, isRet := end.Instrs[len(end.Instrs)-1].(*ssa.Return)
+		if !isRet || len(ret.Results) != 1 {
+			return 0, 0, false
+		}
+		ld, isLoad := ret.Results[0].(*ssa.UnOp)
+		if !isLoad || ld.Op.String() != "*" || !sameExpr(ld.X, e, 0) {
+			return 0, 0, false
+		}
+		// the nil edge: straight back to the loop
+		if straight(b.Succs[isNil]) != loopIf.Block() {
+			return 0, 0, false
+		}
+		nTests++
+	}
+	if nTests != 1 {
+		return 0, 0, false
+	}
+	// every other return yields the fallback, and is reached from the loop's exit only (there is no other branch)
+	for _, ret := range core.ReturnsOf(fn) {
+		if len(ret.Results) != 1 {
+			return 0, 0, false
+		}
+		if ret.Results[0] == ssa.Value(fb) {
+			continue
+		}
+		if ld, isLoad := ret.Results[0].(*ssa.UnOp); isLoad && ld.Op.String() == "*" {
+			if c, ok := core.LoopElem(ld.X); ok && c == ssa.Value(vp) {
+				continue
+			}
+		}
+		return 0, 0, false
+	}
+	// no calls, no stores: the helper has no other effect
+	clean := true
+	core.EachInstr(fn, func(in ssa.Instruction) {
+		switch x := in.(type) {
+		case *ssa.Store, *ssa.MapUpdate, *ssa.Go, *ssa.Defer, *ssa.Send, *ssa.Panic:
+			clean = false
+		case *ssa.Call:
+			if b, ok := x.Call.Value.(*ssa.Builtin); !ok || b.Name() != "len" {
+				clean = false
+			}
+		}
+	})
+	return fbIdx, varIdx, clean
+}
+
+// explicitIdx: v is the induction variable of `for i := 0; i < len(coll); i++`.
+func explicitIdx(v ssa.Value, coll ssa.Value) (ssa.Value, bool) {
+	c, ok := core.RangeIndex(v)
+	if ok && c == coll {
+		return c, true
+	}
+	return nil, false
+}
+
+// variadicElems: the values stored, in index order, into the array behind a variadic argument slice.
+func variadicElems(v ssa.Value) []ssa.Value {
+	sl, ok := v.(*ssa.Slice)
+	if !ok {
+		return nil
+	}
+	al, ok := sl.X.(*ssa.Alloc)
+	if !ok || al.Referrers() == nil {
+		return nil
+	}
+	byIdx := map[int64]ssa.Value{}
+	n := int64(0)
+	for _, ref := range *al.Referrers() {
+		ia, ok := ref.(*ssa.IndexAddr)
+		if !ok || ia.Referrers() == nil {
+			continue
+		}
+		c, ok := ia.Index.(*ssa.Const)
+		if !ok {
+			return nil
+		}
+		for _, r2 := range *ia.Referrers() {
+			if st, ok := r2.(*ssa.Store); ok && st.Addr == ssa.Value(ia) {
+				byIdx[c.Int64()] = st.Val
+				if c.Int64()+1 > n {
+					n = c.Int64() + 1
+				}
+			}
+		}
+	}
+	out := make([]ssa.Value, n)
+	for i := range out {
+		out[i] = byIdx[int64(i)]
+	}
+	return out
 }
 
 func derefStruct(t types.Type) (*types.Struct, bool) {
